@@ -175,6 +175,46 @@ def _closure_apply(ex, p, clo, args, call, k):
     ex.call_closure(p, clo, args, call, k)
 
 
+def m_bool_then(ex, p, call, k):
+    """bool::then(f) / bool::then_some(v): Some(..) iff the receiver is true"""
+    b = call.args[0]
+    if not (isinstance(b, z3.ExprRef) and z3.is_bool(b)):
+        if isinstance(b, z3.ExprRef) and z3.is_bv(b):
+            b = b != 0
+        else:
+            return NotImplemented
+    lazy = call.short.rsplit('::', 1)[-1] == 'then'
+    for cond, taken in ((b, True), (z3.Not(b), False)):
+        if not ex.feasible(p.pc, cond):
+            continue
+        q = p.clone()
+        q.pc.append(cond)
+        if not taken:
+            k(q, NONE)
+        elif lazy:
+            ex.call_closure(q, call.args[1], [], call, lambda q2, r: k(q2, some(r)))
+        else:
+            k(q, some(call.args[1]))
+
+
+def m_fn_call(ex, p, call, k):
+    """<F as FnOnce/FnMut/Fn<Args>>::call_once/call_mut/call(f, (args..)): a callable received as a generic parameter is invoked"""
+    clo = call.args[0]
+    for _ in range(3):
+        if isinstance(clo, Ptr):
+            clo = ex.read_loc(p, None, clo.key, clo.projs)
+    tup = call.args[1] if len(call.args) > 1 else None
+    if isinstance(tup, Agg) and tup.kind == 'tuple':
+        args = list(tup.fields)
+    elif tup is None:
+        args = []
+    else:
+        return NotImplemented
+    if ex.closure_fn(clo) is None and not (isinstance(clo, Const) and '{closure' not in clo.text):
+        return NotImplemented
+    ex.call_closure(p, clo, args, call, k)
+
+
 def m_opt_map(ex, p, call, k):
     """Option::map / Result::map / map_err / and_then / unwrap_or_else / ok_or_else / map_or.. with closures"""
     meth = call.short.rsplit('::', 1)[-1]
@@ -665,6 +705,19 @@ def m_occ_get(ex, p, call, k):
     k(p, Ptr(cell, (), mut))
 
 
+def m_entry_key(ex, p, call, k):
+    """OccupiedEntry::key / VacantEntry::key / Entry::key (&K), VacantEntry::into_key (K): the key the entry was looked up under"""
+    e = _entry(ex, p, call.args[0])
+    if e.name == 'Entry':
+        e = e.fields[0]
+    key = e.fields[1]
+    if call.short.endswith('into_key'):
+        return k(p, key)
+    cell = ('H', f'entry-key{p.seq("entrykey")}', '')
+    p.mem[cell] = key
+    k(p, Ptr(cell, (), False))
+
+
 def m_occ_insert(ex, p, call, k):
     e = _entry(ex, p, call.args[0])
     ptr, key, old = e.fields
@@ -847,6 +900,8 @@ GLOBAL_MODELS = [
     (R(r'Option::(as_ref|as_mut|as_pin_mut|as_pin_ref|as_deref|as_deref_mut)$'), m_opt_asref),
     (R(r'Option::(cloned|copied)$'), m_opt_cloned),
     (R(r'Option::take$'), m_opt_take),
+    (R(r'bool::then(_some)?(::<.*>)?$'), m_bool_then),
+    (R(r' as (FnOnce|FnMut|Fn)(<.*>)?>::(call_once|call_mut|call)$'), m_fn_call),
     (R(r' as (PartialEq|PartialOrd)>::(eq|ne|lt|le|gt|ge)$'), m_cmp),
     (R(r'(^|::)(min|max)$| as Ord>::(min|max)$'), m_minmax),
     (R(r'(^|::)num::\w+$'), m_int_method),
@@ -862,6 +917,7 @@ GLOBAL_MODELS = [
     (R(r'(HashMap|BTreeMap|HashSet|BTreeSet)::(new|with_capacity)$'), m_map_new),
     (R(r'HashMap::entry$'), m_map_entry),
     (R(r'OccupiedEntry::(get|get_mut|into_mut)$'), m_occ_get),
+    (R(r'(OccupiedEntry|VacantEntry|Entry)::(key|into_key)$'), m_entry_key),
     (R(r'OccupiedEntry::insert$'), m_occ_insert),
     (R(r'OccupiedEntry::(remove_entry|remove)$'), m_occ_remove_entry),
     (R(r'VacantEntry::insert$'), m_vac_insert),
@@ -1104,6 +1160,29 @@ def m_tuple_cmp(ex, p, call, k):
     k(p, some(o) if call.short.endswith('partial_cmp') else o)
 
 
+def m_ord_cmp(ex, p, call, k):
+    """<T as Ord>::cmp / <T as PartialOrd>::partial_cmp for unsigned machine integers and byte arrays/slices of equal length ([u8; N]
+    compares lexicographically = as the big-endian number; ids wider than 64 bits are such arrays)"""
+    if isinstance(call.callee, str):
+        f_ = ex.resolve(call.callee)
+        if f_ is not None and f_.blocks and not ex.is_derived(f_):
+            return NotImplemented        # hand-written impl of the crate: execute it
+    if not re.search(r'^<&*(\[u8(; \d+)?\]|u8|u16|u32|u64|u128|usize) as (Ord|PartialOrd)>', call.short):
+        return NotImplemented
+
+    def val(v):
+        v = scalar(ex, p, v)
+        if isinstance(v, Agg) and v.kind == 'array' and v.fields and all(isinstance(x, z3.ExprRef) and z3.is_bv(x) and x.size() == 8 for x in v.fields):
+            return z3.Concat(*v.fields) if len(v.fields) > 1 else v.fields[0]
+        return v
+    a, b = val(call.args[0]), val(call.args[1])
+    if not (isinstance(a, z3.ExprRef) and isinstance(b, z3.ExprRef) and z3.is_bv(a) and z3.is_bv(b) and a.size() == b.size()):
+        return NotImplemented
+    d = z3.If(z3.ULT(a, b), z3.BitVecVal(-1, 8), z3.If(a == b, z3.BitVecVal(0, 8), z3.BitVecVal(1, 8)))
+    o = Sym(f'ordering{p.seq("ordering")}', 'std::cmp::Ordering').with_ov('discr', d)
+    k(p, some(o) if call.short.endswith('partial_cmp') else o)
+
+
 def m_to_bytes(ex, p, call, k):
     meth = call.short.rsplit('::', 1)[-1]
     v = call.args[0]
@@ -1125,6 +1204,7 @@ BYTE_MODELS = [
     (R(r'^<&\[u8\] as TryInto>::try_into$|^<\[u8; \d+\] as TryFrom>::try_from$'), m_slice_try_into_array),
     (R(r'^<\(.*\) as (Ord|PartialOrd)>::(cmp|partial_cmp)$'), m_tuple_cmp),
     (R(r'num::to_(be|le)_bytes$'), m_to_bytes),
+    (R(r' as (Ord|PartialOrd)>::(cmp|partial_cmp)$'), m_ord_cmp),
 ]
 GLOBAL_MODELS = BYTE_MODELS + GLOBAL_MODELS
 
